@@ -393,6 +393,13 @@ pub fn run(rep: &mut Report) {
             st.inc("cases");
             judge_pair::<quizx::vec_graph::Graph>(st, a, b, &tens[i], &tens[j], "vec");
             judge_pair::<quizx::hash_graph::Graph>(st, a, b, &tens[i], &tens[j], "hash");
+            // the same pair with id gaps (vertices created and removed first: the vertex maps of append / plug then
+            // translate between non-contiguous id ranges and freed slots are re-used)
+            let (mut ag, mut bg) = (a.clone(), b.clone());
+            ag.gap = 1;
+            bg.gap = 2;
+            judge_pair::<quizx::vec_graph::Graph>(st, &ag, &bg, &tens[i], &tens[j], "vec");
+            judge_pair::<quizx::hash_graph::Graph>(st, &ag, &bg, &tens[i], &tens[j], "hash");
         }
         watch_end();
     });
